@@ -117,7 +117,7 @@ structure TreeInv (ds : DSymData) (pre : List View.TravItem) (acc : List Nat × 
   reach : ∀ x ∈ acc.1, ∃ s ∈ pre, s.1 = none ∧ TreeReach ds acc.2 s.2.1 x
   items : ∀ it ∈ acc.2, it.2.2 = none
   forest : ∃ R, OForest ds R (edgesOf acc.2) ∧ (∀ x, x ∈ acc.1 ↔ ReachedF ds R (edgesOf acc.2) x) ∧
-    R.length = (pre.filter isStart).length
+    R.length = (pre.filter isStart).length ∧ ∀ x, x ∈ R ↔ ∃ s ∈ pre, s.1 = none ∧ s.2.1 = x
 
 theorem tree_fold {ds : DSymData} (hv : ValidSet ds.dset) :
     ∀ (post pre : List View.TravItem) (acc : List Nat × List Item),
@@ -153,10 +153,20 @@ theorem tree_fold {ds : DSymData} (hv : ValidSet ds.dset) :
         | some i => rfl
       refine ⟨?_, h.nodup, ?_, ?_, h.items, ?_⟩
       rotate_right
-      · obtain ⟨R, f1, f2, f3⟩ := h.forest
-        refine ⟨R, f1, f2, ?_⟩
-        rw [List.filter_append, List.length_append]
-        simp [hst, f3]
+      · obtain ⟨R, f1, f2, f3, f4⟩ := h.forest
+        refine ⟨R, f1, f2, ?_, ?_⟩
+        · rw [List.filter_append, List.length_append]
+          simp [hst, f3]
+        · intro x
+          rw [f4 x]
+          constructor
+          · rintro ⟨s, hs, h1, h2⟩; exact ⟨s, List.mem_append_left _ hs, h1, h2⟩
+          · rintro ⟨s, hs, h1, h2⟩
+            rcases List.mem_append.1 hs with hs | hs
+            · exact ⟨s, hs, h1, h2⟩
+            · simp only [List.mem_singleton] at hs
+              subst hs
+              exact absurd h1 hsome
       · intro x
         rw [h.seen x]
         constructor
@@ -181,8 +191,8 @@ theorem tree_fold {ds : DSymData} (hv : ValidSet ds.dset) :
         obtain ⟨e1, _, _, _⟩ := s2 ht
         refine ⟨?_, List.nodup_cons.2 ⟨hnin, h.nodup⟩, ?_, ?_, h.items, ?_⟩
         rotate_right
-        · obtain ⟨R, f1, f2, f3⟩ := h.forest
-          refine ⟨t.2.2 :: R, OForest.root f1 (fun hr => hnin ((f2 _).2 hr)), ?_, ?_⟩
+        · obtain ⟨R, f1, f2, f3, f4⟩ := h.forest
+          refine ⟨t.2.2 :: R, OForest.root f1 (fun hr => hnin ((f2 _).2 hr)), ?_, ?_, ?_⟩
           · intro x
             rw [List.mem_cons, f2 x]
             unfold ReachedF
@@ -190,6 +200,18 @@ theorem tree_fold {ds : DSymData} (hv : ValidSet ds.dset) :
             tauto
           · rw [List.filter_append, List.length_append, List.length_cons]
             simp [hst, f3]
+          · intro x
+            rw [List.mem_cons, f4 x]
+            constructor
+            · rintro (hx | ⟨s, hs, h1, h2⟩)
+              · exact ⟨t, by simp, ht, by rw [hx, e1]⟩
+              · exact ⟨s, List.mem_append_left _ hs, h1, h2⟩
+            · rintro ⟨s, hs, h1, h2⟩
+              rcases List.mem_append.1 hs with hs | hs
+              · exact Or.inr ⟨s, hs, h1, h2⟩
+              · simp only [List.mem_singleton] at hs
+                subst hs
+                exact Or.inl (by rw [← h2, e1])
         · intro x
           rw [List.mem_cons, h.seen x]
           constructor
@@ -224,12 +246,23 @@ theorem tree_fold {ds : DSymData} (hv : ValidSet ds.dset) :
         have hsrc : t.2.1 ∈ acc.1 := (h.seen _).2 ⟨u, hu, hue⟩
         refine ⟨?_, List.nodup_cons.2 ⟨hnin, h.nodup⟩, ?_, ?_, ?_, ?_⟩
         rotate_right
-        · obtain ⟨R, f1, f2, f3⟩ := h.forest
+        · obtain ⟨R, f1, f2, f3, f4⟩ := h.forest
           have he : edgesOf (acc.2 ++ [(t.2.1, i, none)]) = edgesOf acc.2 ++ [(t.2.1, i)] := by
             unfold edgesOf; simp
           rw [he]
           refine ⟨R, OForest.snoc f1 hfac ((f2 _).1 hsrc) (fun hr => hnin (by rw [htgt]; exact (f2 _).2 hr)),
-            ?_, ?_⟩
+            ?_, ?_, ?_⟩
+          rotate_left 2
+          · intro x
+            rw [f4 x]
+            constructor
+            · rintro ⟨s, hs, h1, h2⟩; exact ⟨s, List.mem_append_left _ hs, h1, h2⟩
+            · rintro ⟨s, hs, h1, h2⟩
+              rcases List.mem_append.1 hs with hs | hs
+              · exact ⟨s, hs, h1, h2⟩
+              · simp only [List.mem_singleton] at hs
+                subst hs
+                rw [ht] at h1; cases h1
           · intro x
             rw [List.mem_cons, f2 x]
             unfold ReachedF
@@ -291,7 +324,7 @@ theorem spanningTree_spanning {ds : DSymData} (hv : ValidSet ds.dset) (hsize : 1
   have hinv := tree_fold hv (ds.view.traversal ds.view.indices ds.view.elements.reverse) [] ([], [])
     (by simp) ⟨fun x => (by simp), List.nodup_nil, (by simp), fun x hx => (by cases hx),
       fun it hit => (by cases hit),
-      ⟨[], OForest.nil, fun x => (by simp [ReachedF, edgesOf]), (by simp)⟩⟩
+      ⟨[], OForest.nil, fun x => (by simp [ReachedF, edgesOf]), (by simp), fun x => (by simp)⟩⟩
   rw [List.nil_append] at hinv
   obtain ⟨c1, _, _, _, c5, _⟩ := C02.traversal_complete ds.view hp ds.view.indices ds.view.elements.reverse
   set tr := ds.view.traversal ds.view.indices ds.view.elements.reverse with htr
@@ -370,16 +403,28 @@ theorem spanningTree_spanning {ds : DSymData} (hv : ValidSet ds.dset) (hsize : 1
       obtain ⟨_, s2, _⟩ := C02.traversal_sound ds.view ds.view.indices ds.view.elements.reverse
         pre post s hsp
       exact hseeds _ (s2 hsn).2.1
-    obtain ⟨R, f1, f2, f3⟩ := hinv.forest
+    obtain ⟨R, f1, f2, f3, f4⟩ := hinv.forest
     -- the only root is the start chamber
     have hR : R = [s.2.1] := by
       rw [hcount] at f3
-      match R, f3 with
-      | [x], _ =>
-        have hx : x ∈ acc.1 := (f2 x).2 (Or.inl (by simp))
-        obtain ⟨s', hs', hsn', hr'⟩ := hinv.reach x hx
-        -- x is a root of the forest, hence not a target: it is the start chamber itself
-        sorry
-    sorry
+      have hsR : s.2.1 ∈ R := (f4 _).2 ⟨s, hs, hsn, rfl⟩
+      match R, f3, hsR with
+      | [x], _, hsR =>
+        simp only [List.mem_singleton] at hsR
+        rw [hsR]
+    have hot := f1.toTree s.2.1 hR
+    have hreach : ∀ x, 1 ≤ x → x ≤ ds.size → Reached ds s.2.1 (edgesOf acc.2) x := by
+      intro x h1 h2
+      have := (f2 x).1 ((hseen x).2 ⟨h1, h2⟩)
+      unfold ReachedF at this
+      rw [hR] at this
+      unfold Reached
+      simpa using this
+    refine ⟨hsr.1, hsr.2, ?_, by rw [htree]; exact hot, by rw [htree]; exact hreach⟩
+    intro x h1 h2
+    obtain ⟨s', hs', hsn', hr⟩ := hinv.reach x ((hseen x).2 ⟨h1, h2⟩)
+    have : s' = s := huniq s' (List.mem_filter.2 ⟨hs', by unfold isStart; rw [hsn']; rfl⟩)
+    rw [htree, ← this]
+    exact hr
 
 end DSymVerif.FGP
